@@ -61,5 +61,31 @@ func main() {
 	r := evid.New(id, tier)
 	c.Run(r)
 	scratch.Cleanup()
+	// the schedule-exploring part of the same check, run first by run.sh, hands over its coverage
+	if pf := os.Getenv("VERIF_PARTIAL"); pf != "" {
+		var in struct {
+			Partial   *evid.Partial `json:"partial"`
+			Infra     []string      `json:"infra"`
+			Technique string        `json:"technique"`
+			Rule      string        `json:"rule"`
+			Assume    []string      `json:"assume"`
+		}
+		b, err := os.ReadFile(pf)
+		if err == nil {
+			err = json.Unmarshal(b, &in)
+		}
+		if err != nil || in.Partial == nil || len(in.Infra) > 0 {
+			fmt.Fprintln(os.Stderr, "INFRA: schedule-exploring part of", id, "did not complete:", err, in.Infra)
+			r.Exhaustive = false
+			if code := r.Finish(); code != 0 {
+				os.Exit(code)
+			}
+			os.Exit(2)
+		}
+		r.Merge(in.Partial)
+		r.Technique += "; PLUS " + in.Technique
+		r.Rule += "; schedule part: " + in.Rule
+		r.Assume = append(r.Assume, in.Assume...)
+	}
 	os.Exit(r.Finish())
 }
